@@ -27,7 +27,7 @@ ASSUMPTIONS = [
 
 
 def gen_case(rng: random.Random, tier: str) -> dict:
-    g = gen.gen_dag(rng)
+    g = gen.gen_dag(rng, max_nodes=10 if tier == "thorough" else 8)
     if rng.random() < 0.4:
         gen.add_fn_renames(rng, g)  # renamed function inputs: fresh names, parallel swaps, rotations
     inp = gen.gen_inputs(rng, g)
